@@ -19,7 +19,7 @@ CONSTANT Focus      \* which property's observables are compared: "C02", "C03", 
 Traces == ndJsonDeserialize(IOEnv.TRACES)
 
 VARIABLES tid, l
-tvars == <<rows, tail, descr, readme, meta, mode, hlen, pc, ref, refmeta, out, ret, gone, tid, l>>
+tvars == <<rows, tail, descr, readme, meta, mode, mmode, hlen, pc, ref, refmeta, out, ret, gone, tid, l>>
 
 Ev == Traces[tid].events
 MetaOf(m) == IF m.k = "ok" THEN MOk(m.d) ELSE [k |-> m.k]
@@ -31,7 +31,7 @@ TraceInit ==
   /\ LET s == Traces[tid].init IN
      /\ rows = s.rows /\ tail = 0 /\ descr = DOk(Len(s.rows)) /\ ref = s.rows /\ hlen = Len(s.rows)
      /\ meta = MetaOf(s.meta) /\ refmeta = (IF s.meta.k = "ok" THEN s.meta.d ELSE NoMeta)
-     /\ readme = ROk(Len(s.rows), s.meta.k = "ok") /\ mode = s.mode
+     /\ readme = ROk(Len(s.rows), s.meta.k = "ok") /\ mode = s.mode /\ mmode = s.mode
   /\ pc = Idle /\ out = "ok" /\ ret = 0 /\ gone = FALSE
 
 CallOf(e) ==
@@ -41,6 +41,7 @@ CallOf(e) ==
     [] e.op = "SetItem" -> SetItem(e.i, e.id)
     [] e.op = "SetMode" -> SetMode(e.m)
     [] e.op = "Reopen" -> Reopen(e.m)
+    [] e.op = "SetMetaMode" -> SetMetaMode(e.m)
     [] e.op = "Delete" -> Delete
     [] e.op = "M_Call" -> M_Call(e.kd, e.key, e.v)
 
@@ -70,7 +71,8 @@ Match ==
            /\ ((F("C02") \/ F("C09")) => descr = DescrOf(p.descr))
            /\ (F("C08") => readme = ReadmeOf(p.readme))
            /\ (F("C13") => meta = MetaOf(p.meta))
-           /\ ((F("C03") \/ F("C09")) => hlen = p.hlen /\ mode = p.mode /\ OpenOutcome = p.fresh))
+           /\ ((F("C03") \/ F("C09")) => hlen = p.hlen /\ mode = p.mode /\ OpenOutcome = p.fresh)
+           /\ (F("C13") => mmode = p.mmode))
 (* book-keeping: how far each trace could be explained *)
 Progress == (pc = Idle /\ Match) => TLCSet(tid, IF TLCGet(tid) < l THEN l ELSE TLCGet(tid))
 Constraint == Match /\ Progress
